@@ -213,3 +213,80 @@ def run_x86_calls(res, widths=(8, 16, 32, 64), masks=None, max_report=4):
                               % (t[1], w, t[0], v, " ; ".join(ins)[:400]),
                               {"x86call": line, "disassembly": ins, "theorem": "C03_input_template/C03_output_template"}, no_failing_input=True)
     return stats
+
+
+def run_jit_programs(res, cases, levels, max_report=4):
+    """Per-instruction certified validation of the machine code of whole programs: every generated
+    program is compiled once (bytecode + machine code + code offset of each bytecode instruction);
+    each instruction's code is disassembled and handed to the certified checker of its kind —
+    arithmetic: X86.form_ok, Inp/Out: X86Call.call_ok, BrZ/BrNZ: X86Call.br_ok plus the check that
+    the jump lands on the code of instruction pc+off, Noop: no code.  Pointer moves (Mov) are
+    recognised but not certified (their bounds-probe protocol is theorem C06_protocol_safe; the
+    address arithmetic is observed under guard pages)."""
+    from . import x86tr
+    from . import pipeline as P
+    driver = C.build_driver()
+    hv = C.build_harness("debug")
+    stats = {"programs": 0, "instructions": 0, "accepted": {"arith": 0, "io": 0, "branch": 0, "noop": 0}, "mov_not_certified": 0,
+             "rejected": 0, "unsupported": 0}
+    rep = 0
+    kind_of = {"a": "arith", "u": "arith", "x": "arith", "c": "arith", "i": "io", "o": "io", "z": "branch", "nz": "branch"}
+    for level in levels:
+        outs = C.run_lines(hv, ["mcprog|%d|%d|0|1|%s" % (c.w, level, P.hexs(c.src)) for c in cases])
+        jobs = []
+        for c, o in zip(cases, outs):
+            if not o.startswith("ok "):
+                continue
+            stats["programs"] += 1
+            bc, hx, locs, term = [x.strip() for x in o[3:].split(" | ")]
+            hdr, ins = x86tr.split_bc(bc)
+            locs = [int(x) for x in locs.split(",")]
+            code = bytes.fromhex(hx)
+            if len(locs) != len(ins) + 1:
+                raise C.CheckFailure("mcprog: %d locations for %d instructions" % (len(locs), len(ins)))
+            for i, (live, tk) in enumerate(ins):
+                jobs.append((c, i, tk, live, code[locs[i]:locs[i + 1]].hex(), locs, int(term), level))
+        dis = x86tr.disasm_many([j[4] for j in jobs])
+        lines, meta = [], []
+        for j, di in zip(jobs, dis):
+            c, i, tk, live, _, locs, term, lvl = j
+            stats["instructions"] += 1
+            k, w = tk[0], c.w
+            one = "14 -2 12 1 %s %s" % (live, " ".join(tk))
+            try:
+                if k == "n":
+                    if di:
+                        raise x86tr.Unsupported("code emitted for a no-op: " + " ; ".join(di))
+                    stats["accepted"]["noop"] += 1
+                    continue
+                if k == "m":
+                    stats["mov_not_certified"] += 1
+                    continue
+                if k in "auxc":
+                    lines.append("x86form|%d|%s|%s" % (w, one, ";".join(x86tr.translate(t, w) for t in di)))
+                elif k in ("i", "o"):
+                    lines.append("x86call|%s|%s" % (one, ";".join(x86tr.translate_call(t, w, locs[i], term) for t in di)))
+                elif k in ("z", "nz"):
+                    lines.append("x86br|%s|%s" % (one, x86tr.translate_br(di, w, locs[i], locs[i + int(tk[2])])))
+                else:
+                    raise x86tr.Unsupported("bytecode instruction kind " + k)
+                meta.append((j, di))
+            except x86tr.Unsupported as e:
+                stats["unsupported"] += 1
+                if rep < max_report:
+                    rep += 1
+                    res.violation("JIT code of instruction %d (`%s`) of %r (width %d, level %d) is outside the modelled subset: %s"
+                                  % (i, " ".join(tk), c.src[:150], w, lvl, str(e)[:300]),
+                                  {"case": c.to_json(), "backend": "jit", "level": lvl, "instruction": tk, "disassembly": di}, no_failing_input=True)
+        verdicts = C.run_lines(driver, lines)
+        for (j, di), v, line in zip(meta, verdicts, lines):
+            if v == "ok":
+                stats["accepted"][kind_of[j[2][0]]] += 1
+                continue
+            stats["rejected"] += 1
+            if rep < max_report:
+                rep += 1
+                res.violation("JIT code of instruction %d (`%s`, live %s) of %r (width %d, level %d) is rejected by its certified checker (%s): %s"
+                              % (j[1], " ".join(j[2]), j[3], j[0].src[:150], j[0].w, j[7], v, " ; ".join(di)[:300]),
+                              {"case": j[0].to_json(), "backend": "jit", "level": j[7], "checker_line": line, "disassembly": di}, no_failing_input=True)
+    return stats
